@@ -18,7 +18,8 @@ ASSUMPTIONS = {
     "decoders": ["construct.core io/struct/bytes2bits/bits2integer/BytesIOWithOffsets -> list-backed symbolic-aware equivalents",
                  "han.cosem.datetime -> datetime model with CPython's validation rules; float/round/int in aidon/kaifa/kamstrup -> delta-model float, decimal rounding model",
                  "conditional expressions of aidon._normalize_parsed_items rewritten from source to a non-forking numeric If (int/float type of the arms not distinguished)",
-                 "Decimal(10) ** symbolic exponent forks over the feasible exponent values"],
+                 "Decimal(10) ** symbolic exponent forks over the feasible exponent values",
+                 "cosem.ObisCode decoder lambda recompiled from the module source with its f-string / '.'.join made symbolic-aware"],
     "mc": ["han.meter_connection._LOGGER -> no-op logger"],
 }
 
@@ -71,6 +72,7 @@ def _p1(p):
     import han.dlde as D
     p.setg(D, "_LOGGER", NullLog()); p.setg(D, "bytes", SBytes); p.setg(D, "bytearray", SByteArray)
     p.setg(D, "int", sym_int); p.setg(D, "float", sym_float)
+    p.setg(D, "datetime", models.SDateTime)
     if not isinstance(D._ident_pattern, regex.SymPattern):
         p.setg(D, "_ident_pattern", regex.SymPattern(D._ident_pattern))
     try:
@@ -135,6 +137,12 @@ def _decoders(p):
     for mod in (aidon, kaifa, kamstrup):
         p.setg(mod, "float", sym_float); p.setg(mod, "round", sym_round); p.setg(mod, "int", sym_int)
         p.setg(mod, "isinstance", models.sym_isinstance); p.setg(mod, "hasattr", models.sym_hasattr)
+    try:
+        restore, counts = loader.rewrite_adapter_lambda(cosem, "ObisCode", "decoder")
+        p.undo.append(restore)
+        INFO["obiscode_adapter_rewritten"] = counts
+    except Exception as e:
+        INFO["obiscode_adapter_rewritten"] = f"failed: {e}"
     try:
         restore, counts = loader.rewrite(aidon, "_normalize_parsed_items", ifexp=True)
         p.undo.append(restore)
